@@ -220,7 +220,7 @@ def run_case(case):
     d = check_stack(frames, stack)
     if d:
         return fail("wrong-trace", d)
-    if spec["failure"] == "assert" and r.get("assert_pos"):
+    if spec["failure"] in ("assert", "assert_unicode") and r.get("assert_pos"):
         f, line, col = r["assert_pos"]
         f = pre + f
         if "%s:%d:%d" % (f, line, col) not in err:
